@@ -664,6 +664,25 @@ impl<'a> Ctx<'a> {
 		// (the duplicated-Game-End quirk is recognised by the nominal block length of the version and is
 		// not an event field: it is not compared for versions whose blocks are longer than nominal)
 		self.check_game_level("newer_version_fields", &g, false, out);
+		// the known fields of the (longer) Game Start and Game End blocks, against the TLA+ field maps
+		let ng = self.db.blocks.start_groups.len();
+		match crate::blocks::expected_start_json(self.db, &self.built.start_block, ng) {
+			Ok(want) => {
+				let got = crate::blocks::render(&g.start);
+				if got != want {
+					out.push(viol("newer_version_fields", &cls, "mismatch", crate::blocks::diff_json(&got, &want, "start")));
+				}
+			}
+			Err(e) => out.push(viol("newer_version_fields", &cls, "mismatch", format!("harness built an invalid start block: {}", e))),
+		}
+		if let Some(e) = &g.end {
+			if let Ok(want) = crate::blocks::expected_end_json(self.db, &self.built.end_block, self.db.blocks.end_groups.len()) {
+				let got = crate::blocks::render(e);
+				if got != want {
+					out.push(viol("newer_version_fields", &cls, "mismatch", crate::blocks::diff_json(&got, &want, "end")));
+				}
+			}
+		}
 	}
 
 	/// The reader's debug option (spec growth beyond the listed properties): the dump directory holds
